@@ -10,6 +10,15 @@ TRUST = ("trusts the Go type checker, go/cfg, go/ssa, the documented semantics o
 
 # property id -> (claimed text, technique, design_ref)   (only built properties appear here)
 CLAIMS = {
+    "C11": (
+        "Does not run a schema validator; conformance of documents is NOT decided. Decided: all 68 files under data/schemas parse, declare draft "
+        "2020-12, carry the $id their path implies, every $ref resolves to a $defs entry or another published file, required members are declared "
+        "properties, patterns compile, keyword values have the right JSON type; each pattern a type's JSONSchema publishes is the very "
+        "constant/variable from which a regexp used by its validator or text parser is compiled (cal.DateTime, parsed by a library routine, must "
+        "reject the surplus the routine accepts); members serialised without omitempty that marshal to null when empty are required by their "
+        "struct's validator. 1 known finding (\"rates\": null in preceding tax).",
+        "static analysis: artefact lint of the shipped schema files, writer/reader agreement on shared pattern constants, struct-tag × validation-table coverage",
+        "§4 C11"),
     "C03": (
         "The re-adding identity itself is a numerical identity between presented figures and is NOT decided. Decided are three structural "
         "necessary conditions: the rounding-rule dispatch (ApplyRoundingRule rounds to the currency's decimals in both directions under "
